@@ -2,7 +2,7 @@
 import re
 
 from analysis import (Prov, Guards, fmt, fmt_short, walk, roots, short, comparison, find_calls, callee_matches,
-                      must_pass, path_to, describe_path, linear, normalised_cmp, const_int_of, cmp_intervals, edge_label)
+                      must_pass, path_to, describe_path, linear, normalised_cmp, const_int_of, cmp_intervals, edge_label, canon)
 from facts import AnchorError, strip_closure
 from harness import Rule, guarded
 
@@ -490,7 +490,8 @@ def r3(ctx):
                    % fmt_short(other), loc=nd.loc(nd.blocks[bi].term.line))
     # ... and it is tested after every single node: between two additions to the returned vector the cap test is passed (a whole bucket
     # appended between two tests can push the answer past max_nodes)
-    adds = [(bi, t) for bi, t in nd.calls() if callee_matches(t, r"vec::Vec::<.*>::(push|extend|append|extend_from_slice)$", r"Vec::(push|extend|append|extend_from_slice)$") and
+    adds = [(bi, t) for bi, t in nd.calls() if (callee_matches(t, r"vec::Vec::<.*>::(push|extend|append|extend_from_slice|insert)$", r"Vec::(push|extend|append|extend_from_slice|insert)$") or
+                                                  re.search(r"Extend(<.*>)?>::(extend|extend_one)$", t.callee() or "")) and
             t.args and any(roots(p.operand(t.args[0])) == roots(p.local(l)) for l in ret_vecs)]
     cap_tests = []
     for bi, t, e in g.switches():
@@ -499,7 +500,24 @@ def r3(ctx):
             other = c[2] if c[1] == mx else c[1]
             if other[0] == "call" and short(other[1]).endswith("Vec::len") and any(roots(other[2][0]) == roots(p.local(l)) for l in ret_vecs):
                 cap_tests.append(bi)
-    okcap = bool(adds) and bool(cap_tests) and all(short(t.callee() or "").endswith("::push") for _, t in adds)
+    def bounded_extend(t):
+        """`v.extend(iter.take(max_nodes - v.len()))` (saturating or plain subtraction, possibly `.max(1)`: the original adds one node before it
+        tests the cap): an addition of at most the room that is left"""
+        if not re.search(r"::extend$", short(t.callee() or "")) or len(t.args) < 2:
+            return False
+        takes = [x for x in walk(p.operand(t.args[1])) if x[0] == "call" and re.search(r"Iterator>?::take$", short(x[1])) and len(x[2]) == 2]
+        if not takes:
+            return False
+        n = canon(takes[0][2][1])
+        if n[0] == "call" and re.search(r"(Ord>?::max|cmp::max)$", short(n[1])) and len(n[2]) == 2 and const_int_of(n[2][1]) == 1:
+            n = canon(n[2][0])
+        a = b_ = None
+        if n[0] == "call" and re.search(r"::saturating_sub$", short(n[1])) and len(n[2]) == 2:
+            a, b_ = canon(n[2][0]), canon(n[2][1])
+        elif n[0] == "bin" and n[1] in ("Sub", "SubWithOverflow", "SubUnchecked"):
+            a, b_ = canon(n[2]), canon(n[3])
+        return a == mx and b_ is not None and b_[0] == "call" and short(b_[1]).endswith("Vec::len") and any(roots(b_[2][0]) == roots(p.local(l)) for l in ret_vecs)
+    okcap = bool(adds) and bool(cap_tests) and all(short(t.callee() or "").endswith("::push") or bounded_extend(t) for _, t in adds)
     if okcap:
         for bi, t in adds:
             rr = nd.reachable(t.target, removed_blocks=cap_tests)
@@ -513,7 +531,7 @@ def r3(ctx):
 def r4(ctx):
     facts = ctx.facts
     rule = Rule("C08.R4", "closest_keys / closest_values / closest_values_predicate share ClosestIter over "
-                "ClosestBucketsIter::new(local_key.distance(target))", floor=3, engine="A-who + A-prov")
+                "ClosestBucketsIter::new(local_key.distance(target))", floor=5, engine="A-who + A-prov + A-dom")
     for name in ("closest_keys", "closest_values", "closest_values_predicate"):
         b = facts.one(r"crate::kbucket::KBucketsTable::<TNodeId, TVal>::" + name)
         rule.analysed(b)
@@ -546,6 +564,17 @@ def r4(ctx):
                    "the predicate flag is computed as %s" % (fmt_short(e)), loc=cb.loc(cb.line))
     if not pcs:
         raise AnchorError("closest_values_predicate: mapping closure not found")
+    # a bucket is read only after its pending node, if due, has been applied: what is yielded is the table's content at that moment (and the
+    # same as what the next call yields), not a snapshot taken before the table changed
+    nx = facts.one(r"<crate::kbucket::ClosestIter<.*> as std::iter::Iterator>::next$")
+    rule.analysed(nx)
+    maps = [bi for bi, t in nx.calls() if re.search(r"ops::Fn(Mut|Once)?::call(_mut|_once)?$", short(t.callee() or "")) and "fmap" in fmt_short(Prov(nx, facts).operand(t.args[0]))]
+    applies = [bi for bi, t in nx.calls() if (t.callee() or "").endswith("KBucket::<TNodeId, TVal>::apply_pending") or short(t.callee() or "").endswith("KBucket::apply_pending")]
+    if not maps:
+        raise AnchorError("ClosestIter::next: the call of fmap not found")
+    rule.check(bool(applies) and all(any(nx.dominates(a, m) for a in applies) for m in maps), "ClosestIter::next applies a due pending node before it reads the bucket",
+               "ClosestIter::next|pending-applied-first", "ClosestIter::next reads a bucket (fmap) before apply_pending has run on it: the nodes yielded are a snapshot that "
+               "still contains the evicted node and lacks the inserted one", loc=nx.loc(nx.line))
     return rule
 
 
